@@ -151,22 +151,43 @@ fn idler_json(r: &Result<IdlerBeam, SPDCError>, cs: &CrystalSetup) -> Value {
   }
 }
 
-pub fn run(args: &[String]) {
-  let seed = arg_u64(args, 0, 1);
-  let n = arg_u64(args, 1, 110) as usize;
-  // args[2]: 0 = signal polar angle in [-0.3, 0.3] (default), 1 = only [0, 0.3]
-  let nonneg = arg_u64(args, 2, 0) == 1;
-  let mut rng = Rng::new(seed);
-  for i in 0..n {
-    let s = gen_setup(&mut rng, i, if nonneg { 0.0 } else { -0.3 }, 0.3, true);
+/// rebuild a setup from the bit patterns recorded in an observation's "input" / "pp" (used by --replay)
+pub fn setup_from_json(input: &Value, pp: &Value) -> Option<Setup> {
+  let g = |k: &str| -> Option<f64> { input.get(k).and_then(|v| v.as_str()).map(|_| f64_of(&input[k])) };
+  let crystal = CrystalType::from_string(input.get("crystal")?.as_str()?).ok()?;
+  let pm = *PMS.iter().find(|p| p.to_str() == input["pm_type"].as_str().unwrap_or(""))?;
+  let cs = CrystalSetup {
+    crystal,
+    pm_type: pm,
+    theta: g("crystal_theta")? * RAD,
+    phi: g("crystal_phi")? * RAD,
+    length: g("length")? * M,
+    temperature: from_celsius_to_kelvin(g("temperature_c")?),
+    counter_propagation: input.get("counter_propagation").and_then(|v| v.as_bool()).unwrap_or(false),
+  };
+  let signal: SignalBeam =
+    Beam::new(pm.signal_polarization(), g("signal_phi")? * RAD, g("signal_theta")? * RAD, g("signal_wavelength")? * M, g("signal_waist")? * M).into();
+  let pump: PumpBeam = Beam::new(pm.pump_polarization(), 0. * RAD, 0. * RAD, g("pump_wavelength")? * M, g("pump_waist")? * M).into();
+  let ppv = if pp.get("on").and_then(|v| v.as_bool()).unwrap_or(false) {
+    PeriodicPoling::On {
+      period: f64_of(&pp["period"]) * M,
+      sign: if pp["positive"].as_bool().unwrap_or(true) { Sign::POSITIVE } else { Sign::NEGATIVE },
+      apodization: Apodization::Off,
+    }
+  } else {
+    PeriodicPoling::Off
+  };
+  Some(Setup { cs, signal, pump, pp: ppv, input: input.clone() })
+}
+
+/// run the implementation on one setup and print the observation
+pub fn observe(i: usize, s: Setup, d1: f64, d2: f64) {
     let Setup { cs, signal, pump, pp, input } = s;
-    let d1 = rng.range(-0.02, 0.02);
-    let d2 = rng.range(-0.02, 0.02);
     let res = guarded(|| {
       let idler_r = IdlerBeam::try_new_optimum(&signal, &pump, &cs, &pp);
       let mut o = json!({
         "kind": "case", "i": i, "input": input, "signal": beam_json(&signal, &cs), "pump": beam_json(&pump, &cs),
-        "pp": pp_json(&pp), "idler": idler_json(&idler_r, &cs),
+        "pp": pp_json(&pp), "idler": idler_json(&idler_r, &cs), "d": [fx(d1), fx(d2)],
       });
       if let Ok(idler) = &idler_r {
         let ws = signal.frequency();
@@ -210,6 +231,33 @@ pub fn run(args: &[String]) {
       Ok(o) => emit(o),
       Err(msg) => emit(json!({"kind": "panic", "i": i, "message": msg})),
     }
+}
+
+pub fn run(args: &[String]) {
+  if args.first().map(|s| s.as_str()) == Some("replay") {
+    // args[1]: file with one JSON object {"input": .., "pp": .., "d": [..]} (an earlier observation)
+    let txt = std::fs::read_to_string(&args[1]).unwrap_or_default();
+    let v: Value = serde_json::from_str(&txt).unwrap_or(Value::Null);
+    match setup_from_json(&v["input"], &v["pp"]) {
+      Some(s) => {
+        let d1 = v["d"].get(0).map(f64_of).unwrap_or(0.01);
+        let d2 = v["d"].get(1).map(f64_of).unwrap_or(-0.01);
+        observe(0, s, d1, d2)
+      }
+      None => emit(json!({"kind": "bad_replay"})),
+    }
+    return;
+  }
+  let seed = arg_u64(args, 0, 1);
+  let n = arg_u64(args, 1, 110) as usize;
+  // args[2]: 0 = signal polar angle in [-0.3, 0.3] (default), 1 = only [0, 0.3]
+  let nonneg = arg_u64(args, 2, 0) == 1;
+  let mut rng = Rng::new(seed);
+  for i in 0..n {
+    let s = gen_setup(&mut rng, i, if nonneg { 0.0 } else { -0.3 }, 0.3, true);
+    let d1 = rng.range(-0.02, 0.02);
+    let d2 = rng.range(-0.02, 0.02);
+    observe(i, s, d1, d2);
   }
   // error rule: signal wavelength not longer than the pump wavelength
   for j in 0..(n / 4).max(8) {
